@@ -81,9 +81,10 @@ ID_POOL = ['X', 'Y', 'Z', 'a', 'b', 'B_0', 'B_1', 'ZZ', 'XI', 'n', 'q_10', 'q_2'
 
 def make_input(r, N, noise=None, basis_kind=None, mapkind=None, G=None):
     D = 2 ** N
-    nc = int(r.integers(1, 4))
-    nn = int(r.integers(1, 4))
-    G = G or int(r.integers(1, 4))
+    big = N >= 3                     # keep the exact-comparison case files small
+    nc = int(r.integers(1, 3 if big else 4))
+    nn = int(r.integers(1, 3 if big else 4))
+    G = G or int(r.integers(1, 3 if big else 4))
     noise = noise or str(r.choice(['traceless', 'nontraceless', 'local', 'projector']))
     basis_kind = basis_kind or str(r.choice(['pauli', 'pauli', 'pauli', 'pauli', 'ggm', 'custom']))
     mapkind = mapkind or str(r.choice(['none', 'reorder', 'reorder', 'suffix']))
@@ -105,7 +106,7 @@ def make_input(r, N, noise=None, basis_kind=None, mapkind=None, G=None):
     c_coeffs = r.standard_normal((nc, G))
     n_coeffs = np.abs(r.standard_normal((nn, G))) + 0.3
     dt = r.uniform(0.3, 1.2, G)
-    omega = np.concatenate([[0.0], r.uniform(-3, 3, 2)])
+    omega = np.concatenate([[0.0], r.uniform(-3, 3, 1 if big else 2)])
     if mapkind == 'none':
         mapping = None
     elif mapkind == 'suffix':
